@@ -12,15 +12,22 @@ VARIABLES l, ok
 
 Trace == ndJsonDeserialize(IOEnv.TRACE)
 
-TSInit == l = 1 /\ ok = TRUE /\ TLCSet(1, 0)
-TSNext == /\ ok /\ l <= Len(Trace)
+\* register 1: index of the first rejected event; register 3: all rejected indexes (at most 400),
+\* so that one pass names every rejected event (the verdict is still "accepted iff none")
+TSInit == l = 1 /\ ok = TRUE /\ TLCSet(1, 0) /\ TLCSet(3, <<>>)
+TSNext == /\ l <= Len(Trace)
           \* IF, not \/: inside an action TLC explores BOTH disjuncts of a disjunction
-          /\ LET b == EventOK(Trace[l]) IN ok' = b /\ (IF b THEN TRUE ELSE TLCSet(1, l))
+          /\ LET b == EventOK(Trace[l]) IN
+               /\ ok' = (ok /\ b)
+               /\ (IF b THEN TRUE
+                   ELSE /\ (IF TLCGet(1) = 0 THEN TLCSet(1, l) ELSE TRUE)
+                        /\ (IF Len(TLCGet(3)) < 400 THEN TLCSet(3, Append(TLCGet(3), l)) ELSE TRUE))
           /\ l' = l + 1
 TSSpec == TSInit /\ [][TSNext]_<<l, ok>>
 TSAccepted ==
   LET reached == TLCGet("stats").diameter - 1
       bad == TLCGet(1)
   IN /\ PrintT(<<"TRACE-VERDICT", "len", Len(Trace), "reached", reached, "bad", bad>>)
+     /\ PrintT(<<"TRACE-FAILS", TLCGet(3)>>)
      /\ bad = 0 /\ reached = Len(Trace)
 =============================================================================
